@@ -1,6 +1,6 @@
 #!/bin/bash
 # tools/run_all.sh [tier] [ids...]: run the checks of all claimed properties one after the other, print one line each
-cd /verif
+cd "$(dirname "$0")/.."
 TIER=${1:-quick}; shift
 IDS=${@:-$(python3 -c "import json;print(' '.join(c['property_id'] for c in json.load(open('MANIFEST.json'))['checks']))")}
 for id in $IDS; do
